@@ -792,6 +792,8 @@ def keep_crs(spec):
     """one odc.geo CRS object per query CRS, created once and kept for the life of the process (as a long-running
     caller holding a CRS object would): histories that evict cache entries must not change what it transforms to"""
     from odc.geo.crs import CRS
+    if spec is None:
+        return None
     if spec not in _KEEP:
         _KEEP[spec] = CRS(spec)
     return _KEEP[spec]
@@ -923,8 +925,11 @@ def p_xquery(g, spec, qpts, qcrs):
         got = set(map(tuple, gbt.tiles(q)))
     except Exception as e:
         return False, f"raised {type(e).__name__}: {str(e)[:200]}"
-    tr = Transformer.from_crs(qcrs, g[2], always_xy=True).transform
-    P = Polygon([tr(x, y) for x, y in qpts])
+    if qcrs is None and g[2] is None:       # CRS-less raster queried in its own world coordinates
+        P = Polygon(list(qpts))
+    else:
+        tr = Transformer.from_crs(qcrs, g[2], always_xy=True).transform
+        P = Polygon([tr(x, y) for x, y in qpts])
     if not P.is_valid or P.area == 0:
         return True, "degenerate query after projection (not judged)"
     A = Affine(*g[3:9])
@@ -946,6 +951,65 @@ def p_xquery(g, spec, qpts, qcrs):
             return False, (f"tile {idx} is {P.distance(T) / px:.3f} pixels away from the query (pyproj always_xy + shapely reference) "
                            f"but is returned: {sorted(got)[:10]}")
     return True, f"{n} overlapping tiles, returned {len(got)}"
+
+
+def gen_nocrs_query(rng):
+    """CRS-less raster with a non-identity affine (scaled, shifted, mirrored) and a CRS-less polygon in its world coordinates"""
+    from affine import Affine
+    NY, NX = rng.randint(4, 12), rng.randint(4, 12)
+    r = float(rng.choice([0.5, 2, 10, 30]))
+    sx_, sy_ = rng.choice([(1, 1), (1, -1), (-1, -1), (-1, 1)])
+    g = (NY, NX, None, sx_ * r, 0.0, float(rng.randint(-50, 50) * 10), 0.0, sy_ * r, float(rng.randint(-50, 50) * 10))
+    A = Affine(*g[3:9])
+    mode = rng.random()
+    if mode < 0.3:      # exactly one tile's extent, shrunk a little
+        spec = ("reg", rng.randint(1, NY), rng.randint(1, NX))
+        pix = [(0.25, 0.25), (spec[2] - 0.25, 0.25), (spec[2] - 0.25, spec[1] - 0.25), (0.25, spec[1] - 0.25)]
+        k = (rng.randint(0, (NX - 1) // spec[2]) * spec[2], rng.randint(0, (NY - 1) // spec[1]) * spec[1])
+        pix = [(u + k[0], v + k[1]) for u, v in pix]
+    else:
+        spec = gen_spec(rng, NY, NX, allow_zero=False)
+        pix = [(rng.uniform(-1, NX + 1), rng.uniform(-1, NY + 1)) for _ in range(3)]
+    qpts = [tuple(round(v, 6) for v in (A * q)) for q in pix]
+    return g, spec, qpts, None
+
+
+GEOG = [
+    # destination / source rasters in geographic CRSs other than EPSG:4326, with a projected or EPSG:4326 partner
+    ("epsg:4283", (115, 150), (-38, -12), ["epsg:3577", "epsg:4326", "epsg:32755"]),     # GDA94
+    ("epsg:7844", (115, 150), (-38, -12), ["epsg:3577", "epsg:4326"]),                   # GDA2020
+    ("epsg:4269", (-120, -75), (28, 48), ["epsg:3857", "epsg:4326", "epsg:5070"]),        # NAD83
+    ("epsg:4258", (-5, 25), (40, 65), ["epsg:3035", "epsg:4326", "epsg:32633"]),          # ETRS89
+]
+
+
+def gen_pair_geog(rng):
+    """lon/lat raster in a geographic CRS that is not EPSG:4326 and an overlapping partner raster in a projected CRS or
+    in EPSG:4326; returned as (geographic raster, partner, tiles, tiles)"""
+    from pyproj import Transformer
+    crs, lr, br, partners = rng.choice(GEOG)
+    pc = rng.choice(partners)
+    r = rng.choice([0.01, 0.05, 0.25])
+    NY, NX = rng.randint(8, 40), rng.randint(8, 40)
+    lon0 = round(rng.uniform(lr[0], lr[1] - NX * r), 2)
+    lat1 = round(rng.uniform(br[0] + NY * r, br[1]), 2)
+    if pc == "epsg:32755":
+        lon0 = round(rng.uniform(144.5, 149.5 - min(NX * r, 4)), 2)
+    if pc == "epsg:32633":
+        lon0 = round(rng.uniform(12.5, 17.5 - min(NX * r, 4)), 2)
+    sy_ = rng.choice([-1, -1, 1])
+    gg = (NY, NX, crs, r, 0.0, lon0, 0.0, sy_ * r, lat1 if sy_ < 0 else round(lat1 - NY * r, 6))
+    # partner: around a point of the geographic raster, comparable pixel size
+    clon, clat = lon0 + rng.uniform(0, NX * r), lat1 - rng.uniform(0, NY * r)
+    NYp, NXp = rng.randint(8, 40), rng.randint(8, 40)
+    if pc == "epsg:4326":
+        rp = rng.choice([0.01, 0.05, 0.25])
+        gp = (NYp, NXp, pc, rp, 0.0, round(clon - NXp * rp / 2, 3), 0.0, -rp, round(clat + NYp * rp / 2, 3))
+    else:
+        cx, cy = Transformer.from_crs("epsg:4326", pc, always_xy=True).transform(clon, clat)
+        px = float(rng.choice([1000, 5000, 25000]))
+        gp = (NYp, NXp, pc, px, 0.0, float(round(cx - NXp * px / 2)), 0.0, -px, float(round(cy + NYp * px / 2)))
+    return gg, gp, ("reg", rng.randint(3, NY), rng.randint(3, NX)), ("reg", rng.randint(3, NYp), rng.randint(3, NXp))
 
 
 def gen_xquery(rng, grid_crs=None, centre=None):
@@ -1159,6 +1223,14 @@ def search(out, tier):
     # UTM rasters and projected rectangles into lon/lat rasters), tiles small relative to the bulge
     for gi in range(12 if not big else 60):
         run("xbig", *gen_xbig(rng))
+    # geographic CRSs other than EPSG:4326 (GDA94, GDA2020, NAD83, ETRS89) as destination and as source
+    for gi in range(8 if not big else 60):
+        gg, gp, sg, sp = gen_pair_geog(rng)
+        run("crossref", gg, gp, sg, sp)
+        run("crossref", gp, gg, sp, sg)
+    # CRS-less rasters with a non-identity affine queried with CRS-less geometries in world coordinates
+    for gi in range(20 if not big else 150):
+        run("xquery", *gen_nocrs_query(rng))
     run("many_crs", 160 if not big else 400, rng.randrange(1000))
     # ---- process histories of the CRS layer (tools/vlib/crshist.py): the same cross-CRS clauses must hold whatever the
     #      process asked of odc.geo.crs before.  Evaluated in a fresh interpreter (see tools/vlib/c12c14_hist.py); a
